@@ -29,7 +29,7 @@ Parameters / not modelled: json (a document is its parsed form; a file that does
 Unicode is outside the model), the file system (`FS` = association list from path STRINGS to file
 texts: the same string names the same file; two different strings are taken to name different files
 only where a theorem says so in its hypothesis), `cp`, tracebacks (an error is an opaque number),
-`mangle_command` (the provider's `relative_path` is an input), the cleaner (C08–C10), filters (C07).
+`\w` of `re` (parameter `isWord` of `mangle`), symbolic links under data/, the cleaner (C08–C10), filters (C07).
 -/
 namespace IV.Serde
 
@@ -64,6 +64,83 @@ def pjoin (a b : Str) : Str :=
 
 /-- `posixpath.basename(p)`: what follows the last '/' -/
 def basename (p : Str) : Str := (p.reverse.takeWhile (· != sep)).reverse
+
+/-! ## Names under data/: the mangled command line, and the reader's containment check -/
+
+/-- `s.rstrip(chars)`, by recursion (the same function as reverse/dropWhile/reverse; this form keeps the head visible) -/
+def rstripP (p : Char → Bool) : Str → Str
+  | [] => []
+  | c :: t =>
+    match rstripP p t with
+    | [] => if p c then [] else [c]
+    | r => c :: r
+
+/-- `s.strip(chars)` -/
+def stripP (p : Char → Bool) (s : Str) : Str := rstripP p (s.dropWhile p)
+
+def dropPrefix? (pre : Str) (s : Str) : Option Str :=
+  if pre.isPrefixOf s then some (s.drop pre.length) else none
+
+/-- `re.sub(r"^/(usr/|)(bin|sbin)/", "", command)` -/
+def stripBinDir (s : Str) : Str :=
+  match dropPrefix? ['/', 'u', 's', 'r', '/', 'b', 'i', 'n', '/'] s with
+  | some r => r
+  | none =>
+  match dropPrefix? ['/', 'u', 's', 'r', '/', 's', 'b', 'i', 'n', '/'] s with
+  | some r => r
+  | none =>
+  match dropPrefix? ['/', 'b', 'i', 'n', '/'] s with
+  | some r => r
+  | none =>
+  match dropPrefix? ['/', 's', 'b', 'i', 'n', '/'] s with
+  | some r => r
+  | none => s
+
+/-- `re.sub(r"[^\w\-\.\/]+", "_", s)`: every maximal run of other characters becomes ONE '_';
+    `isWord` = `\w` of Python's `re` on `str` (a parameter: Unicode alphanumerics and '_') -/
+def collapseOther (isWord : Char → Bool) (inRun : Bool) : Str → Str
+  | [] => []
+  | c :: t =>
+    if isWord c || c = '-' || c = '.' || c = '/' then c :: collapseOther isWord false t
+    else if inRun then collapseOther isWord true t
+    else '_' :: collapseOther isWord true t
+
+def mangleStrip (c : Char) : Bool := c = ' ' || c = '.' || c = '_' || c = '-'
+
+/-- insights.util.mangle.mangle_command (name_max = 255): the file name of a command's output -/
+def mangle (isWord : Char → Bool) (cmd : Str) : Str :=
+  ((stripP mangleStrip ((collapseOther isWord false (stripBinDir cmd)).map (fun c => if c = '/' then '.' else c))).take 255)
+
+/-- the components of a location between '/' (always at least one, possibly empty ones) -/
+def splitPath : Str → List Str
+  | [] => [[]]
+  | c :: t =>
+    if c = sep then [] :: splitPath t
+    else match splitPath t with
+      | [] => [[c]]
+      | h :: r => (c :: h) :: r
+
+def dotdot : Str := ['.', '.']
+def dot : Str := ['.']
+
+/-- resolving a relative location below the root lexically (what `os.path.realpath` does when no
+    component is a symbolic link): `none` = a ".." climbed above the root -/
+def resolveBelow : List Str → List Str → Option (List Str)
+  | stack, [] => some stack
+  | stack, c :: rest =>
+    if c = [] || c = dot then resolveBelow stack rest
+    else if c = dotdot then
+      (match stack with
+       | [] => none
+       | _ :: up => resolveBelow up rest)
+    else resolveBelow (c :: stack) rest
+
+/-- FileProvider.validate, 231-235, on the LOAD side (root = the archive's data directory): the
+    resolved path must be the root or lie below it -/
+def containedLoc (rel : Str) : Bool := (resolveBelow [] (splitPath rel)).isSome
+
+/-- no component of the location is a parent reference ("..") -/
+def NoParentRef (s : Str) : Prop := dotdot ∉ splitPath s
 
 /-! ## Content: how lines are written and how they are read back -/
 
